@@ -56,6 +56,7 @@ type Item struct {
 	Plugin string   // name of a plug-in obligation generator (mode A)
 	Depth  int
 	Opts   string
+	Env    []string // callees whose error result marks an environment failure (streams plug-in)
 }
 
 type Run struct {
@@ -199,7 +200,11 @@ func checkMain(args []string) int {
 			knownBy[k.Obligation] = k
 		}
 	}
-	retryUnknown(run.Obls, 3*slowOf(tier))
+	skipRetry := map[string]bool{}
+	for k := range knownBy {
+		skipRetry[k] = true
+	}
+	retryUnknown(run.Obls, 3*slowOf(tier), skipRetry)
 	// classify
 	var discharged, counted, violations int
 	var samples []any
